@@ -92,21 +92,35 @@ static inline std::string vgx_summary(const char* path) {
   FILE* f = fopen(path, "r");
   if (!f) return best;
   char line[2048];
-  std::string first_err, summary, rt, frames;
+  std::string first_err, summary, rt, frames, state;
   int nframe = 0;
   while (fgets(line, sizeof(line), f)) {
     line[strcspn(line, "\n")] = 0;
     if (summary.empty() && strstr(line, "SUMMARY:")) summary = line;
     if (rt.empty() && strstr(line, "runtime error:")) rt = line;
     if (first_err.empty() && strstr(line, "ERROR: AddressSanitizer")) first_err = line;
-    // collect the first frames "#k 0x... in func file:line"
-    const char* in = strstr(line, " in ");
-    if (nframe < 4 && strstr(line, "    #") && in) {
-      std::string fn = in + 4;
-      size_t sp = fn.find(' ');
-      if (sp != std::string::npos) fn = fn.substr(0, sp);
-      if (fn.find("__asan") == std::string::npos && fn.find("__interceptor") == std::string::npos &&
-          fn.find("__sanitizer") == std::string::npos) {
+    if (strstr(line, "VGXSTATE ")) state = strstr(line, "VGXSTATE ");
+    // collect the first frames: "#k 0x... in func file:line" (symbolized) or "#k 0x... (module+0xoff)"
+    const char* hash = strstr(line, "    #");
+    if (nframe < 4 && hash) {
+      const char* in = strstr(hash, " in ");
+      std::string fn;
+      if (in) {
+        fn = in + 4;
+        size_t sp = fn.find(' ');
+        if (sp != std::string::npos) fn = fn.substr(0, sp);
+      } else {
+        const char* par = strrchr(hash, '(');
+        if (par) {
+          fn = par + 1;
+          size_t cl = fn.find(')');
+          if (cl != std::string::npos) fn = fn.substr(0, cl);
+          size_t sl = fn.rfind('/');
+          if (sl != std::string::npos) fn = fn.substr(sl + 1);
+        }
+      }
+      if (!fn.empty() && fn.find("__asan") == std::string::npos && fn.find("__interceptor") == std::string::npos &&
+          fn.find("__sanitizer") == std::string::npos && fn.find("__ubsan") == std::string::npos) {
         frames += (nframe ? "<" : "") + fn;
         nframe++;
       }
@@ -116,6 +130,7 @@ static inline std::string vgx_summary(const char* path) {
   best = !summary.empty() ? summary : (!rt.empty() ? rt : first_err);
   if (!rt.empty() && summary.find("runtime error") == std::string::npos && best != rt) best += " | " + rt;
   if (!frames.empty()) best += " | frames: " + frames;
+  if (!state.empty()) best += " | " + state;
   return best;
 }
 
@@ -184,6 +199,12 @@ static inline void vgx_emit(const std::string& buf) {
   }
 }
 
+// Optional (default 1 = exhaustive): inside a run of >= 2 consecutive crashes with an identical summary, probe only
+// every vgx_crash_stride-th point while the probes keep crashing identically; the skipped points are reported as
+//     S <count> <first> <last> <summary>
+// (every crash costs a process; this bounds the cost of a wide crash window caused by one known defect).
+static long vgx_crash_stride = 1;
+
 // run points lo, lo+stride, ... < hi in children of `batch` points each.  A batch whose child dies is re-run in
 // careful mode (results flushed after every point); every crash is attributed to exactly one point and the run resumes
 // with the next point, so the number of extra forks is 1 + number of crashing points.
@@ -206,17 +227,41 @@ static inline int vgx_run(long lo, long hi, long stride, long batch, VgxPointFn 
       continue;
     }
     size_t end = i + n;
+    std::string last_summary;
+    int streak = 0;
     while (i < end) {
+      // inside a homogeneous crash window: probe ahead
+      if (streak >= 2 && vgx_crash_stride > 1 && i + (size_t)vgx_crash_stride - 1 < end) {
+        size_t probe = i + (size_t)vgx_crash_stride - 1;
+        bool okp = vgx_child(pts, probe, 1, true, fn, user, errfd, buf, &ndone, &status);
+        if (!okp && ndone == 0) {
+          char st[64];
+          if (WIFSIGNALED(status)) snprintf(st, sizeof(st), "signal%d", WTERMSIG(status));
+          else snprintf(st, sizeof(st), "exit%d", WEXITSTATUS(status));
+          std::string sm = std::string(st) + " " + vgx_summary(errpath);
+          if (sm == last_summary) {
+            printf("S %ld %ld %ld %s\n", (long)(probe - i), pts[i], pts[probe - 1], sm.c_str());
+            printf("CRASH %ld %s\n", pts[probe], sm.c_str());
+            i = probe + 1;
+            streak++;
+            continue;
+          }
+        }
+        streak = 0;   // probe did not crash identically: fall through and run [i, end) normally
+      }
       bool ok = vgx_child(pts, i, end - i, true, fn, user, errfd, buf, &ndone, &status);
       vgx_emit(buf);
       i += ndone;
+      if (ndone) streak = 0;
       if (ok) break;
       if (i < end) {
         char st[64];
         if (WIFSIGNALED(status)) snprintf(st, sizeof(st), "signal%d", WTERMSIG(status));
         else snprintf(st, sizeof(st), "exit%d", WEXITSTATUS(status));
-        std::string sm = vgx_summary(errpath);
-        printf("CRASH %ld %s %s\n", pts[i], st, sm.c_str());
+        std::string sm = std::string(st) + " " + vgx_summary(errpath);
+        printf("CRASH %ld %s\n", pts[i], sm.c_str());
+        streak = (sm == last_summary) ? streak + 1 : 1;
+        last_summary = sm;
         i++;
       }
     }
